@@ -296,6 +296,37 @@ pub fn run(ctx: &Ctx) -> i32 {
         });
     }
 
+
+    // cel chunks carrying a non-zero z-index: hidden layers contribute nothing whatever the z-index says
+    let maxz = if thorough { 6 } else { 5 };
+    for n in 2..=maxz {
+        let fam = format!("forest-zindex-n{}", n);
+        if !ctx.wants_family(&fam) {
+            continue;
+        }
+        let fs = forests(n);
+        ctx.family(&fam, fs.len() as u64 * (1u64 << n) * 2, &format!("all {} forests of {} layers x all visible-flag assignments x two z-index patterns (+1, -1, +2, -2 ... / all -1) on the leaves' cel chunks", fs.len(), n), true);
+        fs.par_iter().for_each(|lv| {
+            for vis in 0..(1u32 << n) {
+                for pat in 0..2u8 {
+                    let case = || format!("{:?} vis={:0w$b} z-pattern={}", lv, vis, pat, w = n);
+                    if !ctx.wants(&fam, &case) {
+                        continue;
+                    }
+                    let mut f = forest_sprite(lv, vis);
+                    let mut k = 0usize;
+                    for ch in f.frames[0].chunks.iter_mut() {
+                        if let Body::Cel(c) = &mut ch.body {
+                            c.z_index = if pat == 0 { [1i16, -1, 2, -2, 3, -3][k % 6] } else { -1 };
+                            k += 1;
+                        }
+                    }
+                    conform(ctx, &fam, &case, &f, &want);
+                }
+            }
+        });
+    }
+
     // wide groups: a parent that lies more than 255 / 256 layers before its child
     if ctx.wants_family("wide-groups") {
         let mut cases: Vec<(usize, u32, usize)> = Vec::new();
